@@ -80,7 +80,7 @@ def run(ctx):
         rand_args = None
     else:
         c07.linker_models(ctx, c07.FAMILIES)
-        cases = c07.gen_programs(ctx, ["types", "consts", "svcs", "mixed", "selfstruct", "lists", "aliasitem", "dotted", "modsvcs"], 0, rng)       # every program of these families
+        cases = c07.gen_programs(ctx, ["types", "consts", "svcs", "mixed", "selfstruct", "lists", "aliasitem", "dotted", "modsvcs", "xcycle"], 0, rng)       # every program of these families
         cases += c07.gen_programs(ctx, ["modules"], 4000 if ctx.quick() else 0, rng)
         # names and annotations that reach the generator's helpers outside of its templates: an error or a result, no crash
         odd = ["struct _ { 1: optional i32 v }", "struct __ { 1: optional i32 v }", "service _ { void ping() }", "service S { void _() }",
